@@ -31,7 +31,7 @@ class ProgGen:
         lo = 1 if positive else 0
         v = r.choice([lo, 1, 2, 3, 5, 8, 10, 20])
         h = r.choice([0, 1, 3, 7, 20]) if k in "IR" else 0
-        self.ts += r.randint(0, 2)
+        self.ts = min(self.ts + r.randint(0, 2), (1 << 64) - 1)
         return oid, gen.order(k, oid=oid, price=self.price, side=r.choice("BS"), ts=self.ts, tif="GTC",
                               vis=v, hid=h, thr=r.choice([0, 1, 2, 5]), amt=r.choice([None, 0, 1, 3, 10]),
                               auto=r.random() < 0.7)
@@ -43,6 +43,21 @@ class ProgGen:
             oid, o = self.order()
             setup.append("ADD " + o)
             ids.append(oid)
+        if r.random() < getattr(self, "burst_rate", 0.04):
+            # a level with a long past: 63-66 (or 256+) removals by id before the threads start (dead queue entries,
+            # removal counters and compaction thresholds inside the queue), leaving one or two resting orders
+            keep = ids[:r.choice([1, 1, 2])]
+            extra = len(ids) - len(keep)
+            # total removals by id in the past: just below, at, or just above a round threshold
+            total = r.choice([64, 64, 64, 128, 256, 256, 1024]) + r.choice([-1, 0, 0, 0, 1, 2])
+            for j in range(max(0, total - extra)):
+                oid, o = self.order()
+                setup.append("ADD " + o)
+                setup.append("UPD C:%s" % oid)
+            for k in ids[len(keep):]:
+                setup.append("UPD C:%s" % k)
+            ids[:] = keep
+            self.long_past = True
         if r.random() < 0.3 and ids:       # pre-existing partial fill / stale ticket
             setup.append("MATCH %d u8000" % r.choice([1, 2, 3]))
         if r.random() < 0.2 and ids:
@@ -74,6 +89,12 @@ class ProgGen:
                 else:
                     ops.append("RV")
             threads.append(ops)
+        if getattr(self, "long_past", False) and ids and len(threads) >= 2:
+            oid, o = self.order()
+            threads[0][0] = r.choice(["ADD " + o, "ADD " + o, "UPD C:%s" % ids[-1]])
+            threads[1][0] = r.choice(["UPD C:%s" % ids[0], "UPD UQ:%s:%d" % (ids[0], r.choice([1, 3, 30])), "ADD " + self.order()[1],
+                                      "MATCH %d u9800" % r.choice([1, 50])])
+            self.long_past = False
         return setup, threads
 
 
@@ -99,13 +120,15 @@ def run_progs(lines, profile="debug", timeout=1800):
         for l in p.stdout.splitlines():
             tag, _, rest = l.partition(" ")
             if tag == "P":
-                cur = dict(id=rest, ev=[], X=[], Q=None, V=None, D=None, DM=None, E=None, K=None, I0=None, N=None)
+                cur = dict(id=rest, ev=[], X=[], U=[], Q=None, V=None, D=None, DM=None, E=None, K=None, I0=None, N=None)
                 recs[rest] = cur
                 last = rest
             elif cur is None:
                 continue
             elif tag in ("S", "A", "B", "R"):
                 cur["ev"].append((tag, rest))
+            elif tag == "U":
+                cur["U"].append(rest)
             elif tag == "X":
                 cur["X"].append(rest)
                 cur["ev"].append((tag, rest))
@@ -401,6 +424,7 @@ def judge_ack(rec, prog, info):
     open_op = {}       # thread -> op text of the call in progress
     watch = {}         # thread -> facts about its cancel/amend call in progress
     cancelled = set()  # ids taken out for good by a cancel / price move and not added again
+    stray = {}         # id -> (thread, op) of a call that took it out without being a match or an update of that order
     viol, known = None, None
     for tag, rest in rec["ev"]:
         if tag == "B":
@@ -410,7 +434,9 @@ def judge_ack(rec, prog, info):
             k = _target(op)
             if k is not None and (op.startswith("UPD C:") or _amend_like(op, price)):
                 other = k in held and held[k] != tid
-                watch[tid] = dict(id=k, resting=(k in in_map or other), held=other, removed=False, op=op)
+                st = stray.get(k)
+                watch[tid] = dict(id=k, resting=(k in in_map or other or (st is not None and st[0] != tid)), held=other, removed=False, op=op,
+                                  stray=(st[1] if st is not None and st[0] != tid else None))
         elif tag == "S":
             tid, ev = rest.split(" ", 1)
             tid = int(tid)
@@ -418,18 +444,26 @@ def judge_ack(rec, prog, info):
             if ev.startswith("REM ") and not ev.endswith(" -"):
                 k = ev.split(" ")[1]
                 in_map.discard(k)
-                if op.startswith("MATCH") or _amend_like(op, price):
+                if op.startswith("MATCH") or (_amend_like(op, price) and _target(op) == k):
                     held[k] = tid
                     last_rem[tid] = k
-                else:
+                elif _target(op) == k:
                     cancelled.add(k)
                     for t2, w in watch.items():
                         if t2 != tid and w["id"] == k:
                             w["removed"] = True
+                else:
+                    # a call that is neither a match nor an update OF THIS ORDER took it out of the book (an add of
+                    # another order, an update of another order, a read): nobody is entitled to do that
+                    stray[k] = (tid, op)
+                    for t2, w in watch.items():
+                        if t2 != tid and w["id"] == k:
+                            w["stray"] = op
             elif ev.startswith("INS "):
                 k = gen.parse_order(ev[4:])["id"]
+                stray.pop(k, None)
                 if k in cancelled:
-                    if op.startswith("ADD "):
+                    if op.startswith("ADD ") and gen.parse_order(op[4:])["id"] == k:
                         cancelled.discard(k)
                     else:
                         viol = viol or ("order %s was inserted again by `%s` after a cancel had reported success" % (k, op))
@@ -454,7 +488,10 @@ def judge_ack(rec, prog, info):
             open_op.pop(tid, None)
             w = watch.pop(tid, None)
             if w and r == "upd:ok:-" and w["resting"] and not w["removed"]:
-                if w["held"]:
+                if w.get("stray"):
+                    viol = viol or ("`%s` reports not-found for order %s, which was resting and had only been taken out of the book "
+                                    "temporarily by `%s` (a call that is neither a match nor an update of that order)" % (w["op"], w["id"], w["stray"][:60]))
+                elif w["held"]:
                     known = ("K4 `%s` reports not-found while another operation holds order %s between taking it out "
                              "of the book and putting the remainder back" % (w["op"], w["id"]))
                 else:
@@ -508,13 +545,15 @@ def run_qprogs(lines, profile="debug", timeout=1800):
         for l in p.stdout.splitlines():
             tag, _, rest = l.partition(" ")
             if tag == "P":
-                cur = dict(id=rest, ev=[], X=[], Q=None, V=None, D=None, K=None, I0=None, N=None)
+                cur = dict(id=rest, ev=[], X=[], U=[], Q=None, V=None, D=None, K=None, I0=None, N=None)
                 recs[rest] = cur
                 last = rest
             elif cur is None:
                 continue
             elif tag in ("S", "B", "R"):
                 cur["ev"].append((tag, rest))
+            elif tag == "U":
+                cur["U"].append(rest)
             elif tag == "X":
                 cur["X"].append(rest)
             elif tag in ("Q", "V", "D", "K", "I0", "N"):
